@@ -102,8 +102,13 @@ pub fn run(seed: u64) -> std::process::ExitCode {
     let good = AskEnvelope { body: AskBody { ask: Ask { text: format!("hello <{seed}> & \"you\""), n: 7 } } };
     let bad = AskEnvelope { body: AskBody { ask: Ask { text: "too big".into(), n: 101 } } };
     let expected_body = yaserde::ser::to_string(&good).unwrap();
+    // the address of a service is an arbitrary URL: query strings and path segments may hold `@`, `:` and escapes
+    const PATHS: [&str; 5] = ["/soap/endpoint", "/soap/endpoint?notify=ops@example.com", "/tenants/@acme/soap", "/soap/endpoint?a=1&b=%40x:y", "/user:pw@host/soap"];
+    let mut scn_index = 0usize;
     for creds in &creds_opts {
         for (name, status, bi, close) in &scenarios {
+            scn_index += 1;
+            let url_path = PATHS[scn_index % PATHS.len()];
             let listener = TcpListener::bind("127.0.0.1:0").unwrap();
             let port = listener.local_addr().unwrap().port();
             let rec = Arc::new(Mutex::new(Recorded::default()));
@@ -111,7 +116,7 @@ pub fn run(seed: u64) -> std::process::ExitCode {
             let (r2, s2, body) = (rec.clone(), stop.clone(), bodies[*bi].1.clone().into_bytes());
             let (st, cl) = (*status, *close);
             let th = std::thread::spawn(move || serve(listener, st, body, cl, r2, s2));
-            let url = format!("http://127.0.0.1:{port}/soap/endpoint");
+            let url = format!("http://127.0.0.1:{port}{url_path}");
             let client = reqwest::Client::builder().timeout(Duration::from_secs(10)).build().unwrap();
             let result: SoapResult<AnswerEnvelope> = rt.block_on(hc::send_using_client(&client, &url, creds.clone(), good.clone()));
             std::thread::sleep(Duration::from_millis(20));
@@ -135,7 +140,8 @@ pub fn run(seed: u64) -> std::process::ExitCode {
                         (None, Some(_)) => "missing",
                         _ => "wrong",
                     };
-                    (m.clone(), p.clone(), auth, b == expected_body.as_bytes())
+                    // reported as the plain endpoint when the request line carries exactly the address's path and query
+                    (m.clone(), if p == url_path { "/soap/endpoint".to_string() } else { p.clone() }, auth, b == expected_body.as_bytes())
                 }
                 None => ("-".into(), "-".into(), "none", false),
             };
